@@ -582,6 +582,26 @@ def expand_element_attributes(tree):
             return ''
     for fn in [n for n in ast.walk(tree) if isinstance(n, FUNCS)]:
         for blk, i, st in _own_statements(fn):
+            # the attribute dictionary given positionally (after the tag) or as attrib={..}: a display with constant keys
+            if isinstance(st, ast.Assign) and len(st.targets) == 1 and isinstance(st.targets[0], ast.Name) and isinstance(st.value, ast.Call) \
+                    and src_(st.value.func) in FACT:
+                call_ = st.value
+                n_tag = 2 if src_(call_.func).endswith('SubElement') else 1
+                d_ = None
+                if len(call_.args) == n_tag + 1 and isinstance(call_.args[n_tag], ast.Dict):
+                    d_ = call_.args[n_tag]
+                    where_ = 'pos'
+                else:
+                    kws_ = [k for k in call_.keywords if k.arg == 'attrib' and isinstance(k.value, ast.Dict)]
+                    if len(kws_) == 1:
+                        d_, where_ = kws_[0].value, kws_[0]
+                if d_ is not None and d_.keys and all(isinstance(k, ast.Constant) and isinstance(k.value, str) and k.value.isidentifier() for k in d_.keys):
+                    new_kw = [ast.keyword(arg=k.value, value=v) for k, v in zip(d_.keys, d_.values)]
+                    if where_ == 'pos':
+                        call_.args = call_.args[:n_tag]
+                    else:
+                        call_.keywords = [k for k in call_.keywords if k is not where_]
+                    call_.keywords = new_kw + call_.keywords        # dictionary entries come before extra keywords, as lxml applies them
             if isinstance(st, ast.Assign) and len(st.targets) == 1 and isinstance(st.targets[0], ast.Name) and isinstance(st.value, ast.Call) \
                     and src_(st.value.func) in FACT and st.value.keywords and all(k.arg is not None and k.arg not in ('attrib', 'nsmap') for k in st.value.keywords):
                 name = st.targets[0].id
